@@ -1,6 +1,7 @@
 /- Line-protocol driver for the cpc family (C05). Core Lean only. -/
 import DSModel.Cpc.Input
 import DSModel.Cpc.Estimator
+import DSModel.Cpc.Union
 namespace DS.Cpc
 
 structure Tabs where
@@ -11,6 +12,7 @@ structure Tabs where
 
 inductive Obj where
   | sk (seed : UInt64) (s : Sketch)
+  | un (seed : UInt64) (u : Union)
 
 abbrev Objs := Array (Option Obj)
 
@@ -52,9 +54,30 @@ def stepLine (T : Tabs) (o : Objs) (w : List String) : Objs × String :=
         (o.set' id (.sk seed s'), observe T s')
       | _ => (o, "bad-op")
     | _, _, _ => (o, "bad-op")
+  | ["unew", id, lgk, seed] =>
+    match id.toNat?, lgk.toNat?, seed.toNat? with
+    | some id, some lgk, some seed =>
+      if lgk < T.minLgK || lgk > T.maxLgK then (o, "throw") else
+      let u := unionNew lgk
+      (o.set' id (.un (UInt64.ofNat seed) u), observe T (getResult u))
+    | _, _, _ => (o, "bad-op")
+  | "uupd" :: uid :: sid :: _ =>
+    match uid.toNat? >>= o.get', sid.toNat? >>= o.get' with
+    | some (.un useed u), some (.sk sseed s) =>
+      if seedHash useed != seedHash sseed then (o, "throw") else
+      let u' := unionUpdate T.hip u s
+      (o.set' uid.toNat?.get! (.un useed u'), observe T (getResult u'))
+    | _, _ => (o, "bad-op")
+  | ["ures", uid, nid] =>
+    match uid.toNat? >>= o.get', nid.toNat? with
+    | some (.un useed u), some nid =>
+      let r := getResult u
+      (o.set' nid (.sk useed r), observe T r)
+    | _, _ => (o, "bad-op")
   | ["copy", id, nid] =>
     match id.toNat? >>= o.get', nid.toNat? with
     | some (.sk seed s), some nid => (o.set' nid (.sk seed s), observe T s)
+    | some (.un seed u), some nid => (o.set' nid (.un seed u), observe T (getResult u))
     | _, _ => (o, "bad-op")
   | _ => (o, "bad-op")
 
